@@ -198,6 +198,13 @@ func (pdb *pgDb) Get(ctx context.Context, key []byte) ([]byte, error) {
 			err = pdb.stopSingle(ctx)
 			return rr, err
 		}
+		// Next returning false is either "no row" or a failed fetch
+		err = rs.Err()
+		rs.Close()
+		if err != nil {
+			pdb.Abort(ctx)
+			return nil, err
+		}
 	}
 
 	query := fmt.Sprintf("SELECT value FROM %s.kv_vise WHERE key = $1", pdb.schema)
